@@ -88,11 +88,8 @@ def representable : Target → Value → Bool
   | .char, v => match v with | .string s => singleChar s | _ => false
   | .unit, _ => false
   | .option t, v => match v with | .null => true | v => representable t v
-  | .vec t, v => match v with | .list vs => representableAll t vs | _ => false
+  | .vec t, v => match v with | .list vs => vs.all (representable t) | _ => false
   | .tuple ts, v => match v with | .list vs => representableTuple ts vs | _ => false
-def representableAll : Target → List Value → Bool
-  | _, [] => true
-  | t, v :: vs => representable t v && representableAll t vs
 def representableTuple : List Target → List Value → Bool
   | [], [] => true
   | t :: ts, v :: vs => representable t v && representableTuple ts vs
@@ -273,10 +270,10 @@ end
 
 theorem mapE_exact (t : Target) (f : Value → Res Dec)
     (hf : ∀ v, representable t v = true → ∃ x, f v = .ok x ∧ denotes false x v = true) :
-    ∀ vs, representableAll t vs = true → ∃ xs, mapE f vs = .ok xs ∧ denotesList false xs vs = true
+    ∀ vs, vs.all (representable t) = true → ∃ xs, mapE f vs = .ok xs ∧ denotesList false xs vs = true
   | [], _ => ⟨[], by simp [mapE], by simp [denotesList]⟩
   | v :: vs, h => by
-    simp only [representableAll, Bool.and_eq_true] at h
+    simp only [List.all_cons, Bool.and_eq_true] at h
     obtain ⟨x, hx, dx⟩ := hf v h.1
     obtain ⟨xs, hxs, dxs⟩ := mapE_exact t f hf vs h.2
     exact ⟨x :: xs, by simp [mapE, hx, hxs], by simp [denotesList, dx, dxs]⟩
@@ -306,7 +303,7 @@ theorem decode_exact_aux : ∀ (τ : Target) (v : Value), representable τ v = t
       obtain ⟨x, hx, dx⟩ := decode_exact_aux t _ h
       exact ⟨.some x, by simp [decode, hx], by simp [denotes, dx]⟩
   | .vec t, v, h => by
-    cases v <;> simp only [representable] at h <;> (try simp at h)
+    cases v <;> simp only [representable] at h <;> (try cases h)
     obtain ⟨xs, hxs, dxs⟩ := mapE_exact t (decode t) (decode_exact_aux t) _ h
     exact ⟨.list xs, by simp [decode, hxs], by simp [denotes, dxs]⟩
   | .tuple ts, v, h => by
@@ -329,15 +326,16 @@ end
 
 theorem mapE_repr (t : Target) (f : Value → Res Dec)
     (hf : ∀ v x, f v = .ok x → representable t v = true) :
-    ∀ vs xs, mapE f vs = .ok xs → representableAll t vs = true
-  | [], _, _ => by simp [representableAll]
+    ∀ vs xs, mapE f vs = .ok xs → vs.all (representable t) = true
+  | [], _, _ => by simp
   | v :: vs, xs, h => by
     simp only [mapE] at h
     split at h
     · rename_i x hx
       split at h
       · rename_i ys hys
-        simp [representableAll, hf v x hx, mapE_repr t f hf vs ys hys]
+        simp only [List.all_cons, Bool.and_eq_true]
+        exact ⟨hf v x hx, mapE_repr t f hf vs ys hys⟩
       · simp at h
     · simp at h
 
